@@ -525,6 +525,206 @@ func verifyGatesOnly(e *env, fault string, report func(kind, detail string)) {
 	verify(e, fault, false, filtered)
 }
 
+// ---------- a failing / stopped Put overlapping a Put of the same content (in-process, gated) ----------
+//
+// The output file is shared by every id whose content is the same, so a Put that
+// fails or stops can only be harmless if it never damages what another writer of
+// the same bytes has already put there. The interleaving is fixed by gates inside
+// the two sources (no timing): A pauses in its copy pass at offset k, B runs until
+// it fails (or pauses: "the process stops here") at offset j, A is released and
+// returns nil, the gates are evaluated, then B is released.
+
+type pairSrc struct {
+	data    []byte
+	pos     int
+	pass    int // 1 = hashing pass, 2 = copy pass
+	mode    string
+	at      int
+	pauseAt int // -1: never
+	paused  chan struct{}
+	release chan struct{}
+}
+
+func (g *pairSrc) Seek(off int64, whence int) (int64, error) {
+	if off != 0 || whence != 0 {
+		return 0, errors.New("unsupported seek")
+	}
+	g.pass++
+	g.pos = 0
+	if g.pass == 2 && g.mode == "seekfail" {
+		return 0, errors.New("injected seek failure")
+	}
+	return 0, nil
+}
+
+func (g *pairSrc) Read(p []byte) (int, error) {
+	if g.pass == 2 && g.pauseAt >= 0 && g.pos >= g.pauseAt && g.paused != nil {
+		close(g.paused)
+		g.paused = nil
+		<-g.release
+	}
+	data := g.data
+	active := g.pass == 2
+	if active && g.mode == "shorter" {
+		data = data[:g.at]
+	}
+	if g.pos >= len(data) {
+		return 0, io.EOF
+	}
+	if len(p) > 4096 {
+		p = p[:4096]
+	}
+	n := copy(p, data[g.pos:])
+	if active && (g.mode == "error" || g.mode == "eof") && g.pos+n > g.at {
+		n = g.at - g.pos
+		if n <= 0 {
+			if g.mode == "error" {
+				return 0, errors.New("injected read error")
+			}
+			return 0, io.EOF
+		}
+	}
+	if active && g.mode == "flip" && g.at >= g.pos && g.at < g.pos+n {
+		p[g.at-g.pos] ^= 0x5a
+	}
+	g.pos += n
+	return n, nil
+}
+
+const pairKnownKey = "pair failed-put-damages-overlapping-put-of-same-content"
+
+func pairFaults(base string, rng *rand.Rand, n int) {
+	for i := 0; i < n; i++ {
+		size := []int{2, 100, 4096, 32769, 70000, 200000}[rng.Intn(6)]
+		seed := rng.Int63n(1000)
+		e, err := setup(base, atomic.AddInt64(&caseCounter, 1), "new", size, seed, false)
+		if err != nil {
+			run.Inconclusive("setup: " + err.Error())
+			return
+		}
+		twin := aid("twin")
+		e.gatesOnly = append(e.gatesOnly, twin)
+		p := e.newPayload()
+		k := []int{0, 1, size / 2, size - 1, -1}[rng.Intn(5)] // -1: A is not paused, B stops first
+		j := []int{0, size / 2, size - 1, rng.Intn(size)}[rng.Intn(4)]
+		bmode := []string{"stall", "stall", "error", "eof", "flip", "seekfail", "shorter"}[rng.Intn(7)]
+		if k < 0 {
+			bmode = "stall"
+		}
+		c, _ := cache.Open(e.dir)
+		a := &pairSrc{data: p, pauseAt: k, paused: make(chan struct{}), release: make(chan struct{})}
+		b := &pairSrc{data: p, pauseAt: -1, mode: bmode, at: j, paused: make(chan struct{}), release: make(chan struct{})}
+		if bmode == "stall" {
+			b.mode, b.pauseAt = "", j
+		}
+		aPaused, bPaused := a.paused, b.paused
+		aDone, bDone := make(chan error, 1), make(chan error, 1)
+		fault := fmt.Sprintf("Put(twin, same %d bytes) %s at offset %d of its copy pass while Put(target) is paused at offset %d of its copy pass", size, bmode, j, k)
+		if k < 0 {
+			fault = fmt.Sprintf("Put(twin, same %d bytes) stopped at offset %d of its copy pass, then a complete Put(target)", size, j)
+		}
+		failedFamily := bmode != "stall"
+		rep := func(kind, detail string) {
+			if failedFamily && (kind == "getfile-names-file-with-wrong-content" || kind == "put-succeeded-but-not-readable") {
+				// known finding (see known_findings.txt): any failure path of copyFile truncates the
+				// shared output file under the other writer, whose remaining writes leave a hole
+				run.Violation(pairKnownKey, kind+" after "+fault+": "+detail, fcase{kind, "pair", size, fault, nil, nil, detail})
+				run.Count("pair_known_pattern_observed", 1)
+				return
+			}
+			if limited(kind + "/pair") {
+				return
+			}
+			run.Violation(fmt.Sprintf("pair %s %s k=%d j=%d size=%d", kind, bmode, k, j, size), fmt.Sprintf("%s after %s: %s", kind, fault, detail), fcase{kind, "pair", size, fault, nil, nil, detail})
+		}
+		startB := func() {
+			go func() {
+				var perr error
+				if pv, st := vlib.Try(func() { _, _, perr = c.Put(twin, b) }); pv != nil {
+					perr = fmt.Errorf("panic: %v at %s", pv, vlib.RepoFrame(st))
+				}
+				bDone <- perr
+			}()
+		}
+		startA := func() {
+			go func() {
+				var perr error
+				if pv, st := vlib.Try(func() { _, _, perr = c.Put(e.target, a) }); pv != nil {
+					perr = fmt.Errorf("panic: %v at %s", pv, vlib.RepoFrame(st))
+				}
+				aDone <- perr
+			}()
+		}
+		ok := true
+		if k >= 0 {
+			startA()
+			select {
+			case <-aPaused:
+			case err := <-aDone:
+				run.Inconclusive(fmt.Sprintf("pair: Put(target) returned (%v) before reaching its pause point", err))
+				ok = false
+			}
+		}
+		if ok {
+			var aerr, berr error
+			bReturned := false
+			if k >= 0 {
+				startB()
+				select {
+				case <-bPaused:
+				case berr = <-bDone:
+					bReturned = true
+				}
+				close(a.release)
+				aerr = <-aDone
+			} else {
+				// B first: it reaches its stop point in an otherwise quiet cache, then A runs to completion
+				startB()
+				select {
+				case <-bPaused:
+				case berr = <-bDone:
+					bReturned = true
+				}
+				startA()
+				aerr = <-aDone
+			}
+			run.Eval(1)
+			if aerr != nil {
+				rep("overlapped-put-failed", fmt.Sprintf("Put(target) with a healthy source returned %v", aerr))
+			} else {
+				// B is stopped (or has failed): the gates, A's entry and the unrelated entries
+				verify(e, fault, true, rep)
+			}
+			if failedFamily && bReturned && berr == nil {
+				run.Count("pair_faulty_put_returned_nil", 1)
+			}
+			if !bReturned {
+				close(b.release)
+				berr = <-bDone
+				if berr != nil {
+					rep("stalled-put-failed", fmt.Sprintf("Put(twin) with a healthy, merely slow source returned %v", berr))
+				} else {
+					verify(e, fault+", then resumed", true, rep)
+					// the twin must now be readable as well
+					if d, _, gerr := c.GetBytes(twin); gerr != nil || !bytes.Equal(d, p) {
+						rep("put-succeeded-but-not-readable", fmt.Sprintf("Put(twin) returned nil but GetBytes(twin) = (%d bytes, %v)", len(d), gerr))
+					}
+				}
+			}
+			run.Distinct(fmt.Sprintf("pair|%s|%d|%d|%d", bmode, size, k, j))
+			run.Count("pair_cases", 1)
+			if failedFamily {
+				run.Count("pair_cases_failed_put", 1)
+			} else {
+				run.Count("pair_cases_stopped_put", 1)
+			}
+		} else {
+			close(b.release)
+		}
+		os.RemoveAll(e.dir)
+	}
+}
+
 // ---------- random SIGKILL of a looping writer ----------
 
 func randomKills(base string, rng *rand.Rand, n int) {
@@ -626,6 +826,9 @@ func main() {
 		// hostile sources
 		nsf := r.Pick(600, 30000)
 		vlib.Parallel(W, W, func(w int) { sourceFaults(base, r.Rand(fmt.Sprintf("src-%d", w)), nsf/W) })
+		// a failing / stopped Put overlapping a Put of the same content
+		npf := r.Pick(320, 16000)
+		vlib.Parallel(W, W, func(w int) { pairFaults(base, r.Rand(fmt.Sprintf("pair-%d", w)), npf/W) })
 		// random kills
 		nrk := r.Pick(8, 200)
 		vlib.Parallel(W, W, func(w int) { randomKills(base, r.Rand(fmt.Sprintf("kill-%d", w)), (nrk+W-1)/W) })
